@@ -238,3 +238,40 @@ Proof.
     apply F in J. rewrite He in J. discriminate.
   - apply orb_false_iff in E as [E1 E2]. exists n. repeat split; assumption.
 Qed.
+
+(* ---- module aliases ---- *)
+From Coq Require Import Lia.
+
+Lemma slen_app (a b : string) : String.length (a ++ b) = String.length a + String.length b.
+Proof. induction a as [|c a IH]; simpl; [reflexivity | now rewrite IH]. Qed.
+
+Lemma sapp_inv_tail (s : string) : forall a b, a ++ s = b ++ s -> a = b.
+Proof.
+  induction a as [|c a IH]; intros [|d b] H; simpl in H.
+  - reflexivity.
+  - apply (f_equal String.length) in H. simpl in H. rewrite slen_app in H. lia.
+  - apply (f_equal String.length) in H. simpl in H. rewrite slen_app in H. lia.
+  - injection H as -> H. f_equal. now apply IH.
+Qed.
+
+(* an alias is produced exactly for colliding or reserved module names, and then it is the package initials, "_", the module *)
+Lemma module_alias_shape p v m c :
+  module_alias p v m c = if c || reserved m then pkg_initials p v ++ "_" ++ m else "".
+Proof. reflexivity. Qed.
+
+(* two colliding modules of the same base name get distinct aliases exactly when their packages' initials differ *)
+Lemma module_alias_distinct_iff p1 p2 v m :
+  module_alias p1 v m true = module_alias p2 v m true <-> pkg_initials p1 v = pkg_initials p2 v.
+Proof.
+  unfold module_alias. cbn [orb]. split; intro H.
+  - now apply sapp_inv_tail in H.
+  - now rewrite H.
+Qed.
+
+(* ... so the alias does NOT separate packages that share their initials *)
+Lemma module_alias_same_initials_refuted :
+  exists p1 p2 v m, p1 <> p2 /\ module_alias p1 v m true = module_alias p2 v m true.
+Proof.
+  exists ["google"; "example"; "kw"; "v1"; "alpha"], ["google"; "example"; "kw"; "v1"; "apple"], "v1", "common".
+  split; [discriminate | vm_compute; reflexivity].
+Qed.
